@@ -12,6 +12,7 @@ import (
 
 	"github.com/cespare/xxhash/v2"
 	"github.com/influxdata/influxdb/v2/task/backend/scheduler"
+	"github.com/prometheus/client_golang/prometheus"
 )
 
 // ---------------------------------------------------------------------------------------------
@@ -45,6 +46,65 @@ type world struct {
 	spurious  int // wake-ups with a non-empty queue and nothing due
 	allowance int // spurious wake-ups that a Schedule/Release may legitimately leave behind
 	excess    int // spurious wake-ups beyond the allowance
+
+	// mid-call schedule point (see midCounter)
+	midMu sync.Mutex
+	mid   func()
+}
+
+// armMid installs (or, with nil, removes) the one-shot action that runs the next time Release or
+// Schedule reaches its call-counting metric.
+func (w *world) armMid(fn func()) {
+	w.midMu.Lock()
+	w.mid = fn
+	w.midMu.Unlock()
+}
+
+func (w *world) fireMid() {
+	w.midMu.Lock()
+	fn := w.mid
+	w.mid = nil
+	w.midMu.Unlock()
+	if fn != nil {
+		fn()
+	}
+}
+
+// midCounter wraps the scheduler's "release calls" / "schedule calls" counters. Release and
+// Schedule bump these on the caller's goroutine while the call is in flight, so the harness gets
+// a point INSIDE Release / Schedule at which it can let the clock reach a due time: the main loop
+// then dispatches (and re-queues) tasks while that Release / Schedule is half done. The scheduler
+// is a concurrent object (task service calls vs. the timer loop); this makes one such overlap
+// reproducible instead of hoping for it.
+type midCounter struct {
+	prometheus.Counter
+	w *world
+}
+
+func (c *midCounter) Inc() {
+	c.Counter.Inc()
+	c.w.fireMid()
+}
+
+// hookMetrics replaces the two counters inside *SchedulerMetrics (unexported fields; same
+// reflect/unsafe technique as peek). It returns how many counters could be wrapped.
+func hookMetrics(sm *scheduler.SchedulerMetrics, w *world) int {
+	n := 0
+	if sm == nil {
+		return 0
+	}
+	v := reflect.ValueOf(sm).Elem()
+	ct := reflect.TypeOf((*prometheus.Counter)(nil)).Elem()
+	for _, name := range []string{"releaseCalls", "scheduleCalls"} {
+		f := v.FieldByName(name)
+		if !f.IsValid() || f.Type() != ct || f.IsNil() {
+			continue
+		}
+		p := (*prometheus.Counter)(unsafe.Pointer(f.UnsafeAddr()))
+		*p = &midCounter{Counter: *p, w: w}
+		n++
+	}
+	return n
 }
 
 func newWorld() *world {
